@@ -161,9 +161,161 @@ pub fn run_decoder(decoder: usize, input: &[u8]) -> &'static str {
     }
 }
 
+// ------------------------------------------------------------------ scaling families
+
+pub const SCALE_FAMILIES: [&str; 16] = [
+    "hid: n unfinished initialisation packets on distinct channels",
+    "hid: n single-packet messages on distinct channels",
+    "hid: n unfinished initialisation packets on one channel",
+    "cbor getInfo: n versions",
+    "cbor getInfo: n transports",
+    "cbor makeCredential request: n parameters and n exclude-list entries",
+    "cbor getAssertion request: n allow-list entries",
+    "json creation options: n parameters and n excluded credentials",
+    "json request options: n allowed credentials with transports",
+    "json client data: n unknown members",
+    "base64: n characters",
+    "suffix list: n labels",
+    "rp id verifier: host of n labels",
+    "authenticator data: extension map of n entries",
+    "u2f request: n data bytes",
+    "cbor Bytes: array of n integers",
+];
+
+/// input of family `f` at size `n` (built in the worker: too large for a command line)
+pub fn scale_input(f: usize, n: usize) -> (usize, Vec<u8>) {
+    use passkey_types::webauthn::{PublicKeyCredentialDescriptor, PublicKeyCredentialType};
+    let desc = |i: usize| PublicKeyCredentialDescriptor { ty: PublicKeyCredentialType::PublicKey, id: format!("credential-{i:08}").into_bytes().into(), transports: Some(vec![passkey_types::webauthn::AuthenticatorTransport::Usb, passkey_types::webauthn::AuthenticatorTransport::Internal]) };
+    let cbor = |v: &dyn Fn(&mut Vec<u8>)| {
+        let mut b = vec![];
+        v(&mut b);
+        b
+    };
+    let head = |b: &mut Vec<u8>, major: u8, n: usize| {
+        b.push((major << 5) | 26);
+        b.extend_from_slice(&(n as u32).to_be_bytes());
+    };
+    match f % SCALE_FAMILIES.len() {
+        0 | 1 | 2 => {
+            let mut s = Vec::with_capacity(n * 65);
+            for i in 0..n {
+                let ch = if f % 3 == 2 { 7u32 } else { i as u32 + 1 };
+                let mut p = vec![0u8; 64];
+                p[..4].copy_from_slice(&ch.to_be_bytes());
+                p[4] = 0x81;
+                let len: u16 = if f % 3 == 1 { 10 } else { 100 };
+                p[5..7].copy_from_slice(&len.to_be_bytes());
+                s.push(64);
+                s.extend_from_slice(&p);
+            }
+            (16, s)
+        }
+        3 => (4, cbor(&|b| {
+            b.extend_from_slice(&[0xa2, 0x01]);
+            head(b, 4, n);
+            for _ in 0..n {
+                b.push(0x68);
+                b.extend_from_slice(b"FIDO_2_0");
+            }
+            b.extend_from_slice(&[0x03, 0x50]);
+            b.extend_from_slice(&[0u8; 16]);
+        })),
+        4 => (4, cbor(&|b| {
+            b.extend_from_slice(&[0xa3, 0x01, 0x81, 0x68]);
+            b.extend_from_slice(b"FIDO_2_0");
+            b.extend_from_slice(&[0x03, 0x50]);
+            b.extend_from_slice(&[0u8; 16]);
+            b.push(0x09);
+            head(b, 4, n);
+            for i in 0..n {
+                if i % 2 == 0 {
+                    b.push(0x63);
+                    b.extend_from_slice(b"usb");
+                } else {
+                    b.push(0x67);
+                    b.extend_from_slice(b"unknown");
+                }
+            }
+        })),
+        5 => {
+            let req = make_credential::Request {
+                client_data_hash: vec![1u8; 32].into(),
+                rp: make_credential::PublicKeyCredentialRpEntity { id: "example.com".into(), name: None },
+                user: passkey_types::webauthn::PublicKeyCredentialUserEntity { id: b"user".to_vec().into(), display_name: "d".into(), name: "n".into() },
+                pub_key_cred_params: (0..n).map(|i| passkey_types::webauthn::PublicKeyCredentialParameters { ty: PublicKeyCredentialType::PublicKey, alg: if i % 2 == 0 { coset::iana::Algorithm::ES256 } else { coset::iana::Algorithm::RS256 } }).collect(),
+                exclude_list: Some((0..n).map(desc).collect()),
+                extensions: None,
+                options: make_credential::Options { rk: false, up: true, uv: true },
+                pin_auth: None,
+                pin_protocol: None,
+            };
+            let mut b = vec![];
+            ciborium::ser::into_writer(&req, &mut b).expect("serialise");
+            (0, b)
+        }
+        6 => {
+            let req = get_assertion::Request { rp_id: "example.com".into(), client_data_hash: vec![1u8; 32].into(), allow_list: Some((0..n).map(desc).collect()), extensions: None, options: get_assertion::Options { rk: false, up: true, uv: true }, pin_auth: None, pin_protocol: None };
+            let mut b = vec![];
+            ciborium::ser::into_writer(&req, &mut b).expect("serialise");
+            (2, b)
+        }
+        7 => {
+            let params: Vec<Value> = (0..n).map(|i| json!({"type": if i % 3 == 2 { "unknown" } else { "public-key" }, "alg": if i % 2 == 0 { json!(-7) } else { json!("-257") }})).collect();
+            let excl: Vec<Value> = (0..n).map(|i| json!({"type": "public-key", "id": crate::model::util::b64url(format!("credential-{i:08}").as_bytes()), "transports": ["usb", "future-transport"]})).collect();
+            (7, serde_json::to_vec(&json!({"publicKey": {"rp": {"id": "example.com", "name": "n"}, "user": {"id": "dXNlcg", "name": "n", "displayName": "d"}, "challenge": "Y2hhbGxlbmdl", "pubKeyCredParams": params, "excludeCredentials": excl}})).unwrap())
+        }
+        8 => {
+            let allow: Vec<Value> = (0..n).map(|i| json!({"type": "public-key", "id": crate::model::util::b64url(format!("credential-{i:08}").as_bytes()), "transports": ["usb", "nfc", "future-transport"]})).collect();
+            (8, serde_json::to_vec(&json!({"publicKey": {"challenge": "Y2hhbGxlbmdl", "rpId": "example.com", "allowCredentials": allow}})).unwrap())
+        }
+        9 => {
+            let mut m = serde_json::Map::new();
+            m.insert("type".into(), json!("webauthn.get"));
+            m.insert("challenge".into(), json!("Y2hhbGxlbmdl"));
+            m.insert("origin".into(), json!("https://example.com"));
+            m.insert("crossOrigin".into(), json!(false));
+            for i in 0..n {
+                m.insert(format!("member{i:08}"), json!(i));
+            }
+            (9, serde_json::to_vec(&Value::Object(m)).unwrap())
+        }
+        10 => (12, "QUJD".repeat(n / 4 + 1).into_bytes()),
+        11 => (20, format!("{}com", "ab.".repeat(n)).into_bytes()),
+        12 => (21, format!("https://{}example.com\nexample.com", "ab.".repeat(n)).into_bytes()),
+        13 => (6, cbor(&|b| {
+            b.extend_from_slice(&crate::model::util::sha256(b"example.com"));
+            b.push(0x81);
+            b.extend_from_slice(&[0, 0, 0, 1]);
+            head(b, 5, n);
+            for i in 0..n {
+                b.push(0x6a);
+                b.extend_from_slice(format!("k{i:09}").as_bytes());
+                b.push(0x01);
+            }
+        })),
+        14 => {
+            let n = n.min(65_000);
+            let mut b = vec![0x00, 0x01, 0x00, 0x00, 0x00, (n >> 8) as u8, n as u8];
+            b.extend(std::iter::repeat(0x5a).take(n));
+            (13, b)
+        }
+        _ => (22, cbor(&|b| {
+            head(b, 4, n);
+            b.extend(std::iter::repeat(0x17).take(n));
+        })),
+    }
+}
+
+fn parse_scale(origin: &str) -> Option<(usize, usize)> {
+    let mut it = origin.strip_prefix("scale:")?.split(':');
+    Some((it.next()?.parse().ok()?, it.next()?.parse().ok()?))
+}
+
 pub fn body_for(case: &Case) -> (Option<usize>, Box<dyn FnMut() -> Body + Send>) {
-    let input = unhex(&case.input_hex);
-    let decoder = case.decoder;
+    let (decoder, input) = match parse_scale(&case.origin) {
+        Some((f, n)) => scale_input(f, n),
+        None => (case.decoder, unhex(&case.input_hex)),
+    };
     let origin = case.origin.clone();
     let len = input.len();
     let key = h64(&(decoder, &input));
@@ -615,10 +767,11 @@ fn minimise(case: &Case, msg: &str) -> Case {
 }
 
 pub fn run(ctx: &mut Ctx) {
-    ctx.rule = "inputs for 24 public decoder entry points (CTAP2 CBOR of six message types, authenticator data, WebAuthn JSON of five types, base64 helpers, three U2F parsers, CTAPHID packet sequences, COSE key converter, fingerprint and asset-link validators, suffix-list API, RP-ID verifier, Bytes/Aaguid CBOR): arbitrary bytes/strings, and structured mutations of valid encodings produced by the C12/C13/C14/C16/C17 generators (truncation, extension, bit flips, CBOR length heads rewritten to 2^16 / 2^32-1 / 2^32 / 2^40 / 2^63 / 2^64-1 / 2^28, inserted huge heads, nesting up to 10^5, length fields rewritten, splices), occasionally fed to another decoder of the same wire format; each case runs in an isolated worker under catch_unwind with allocation and CPU accounting. Non-trivial = a mutation of a valid encoding, or an input the decoder accepted; distinct by (decoder, input).".into();
+    ctx.rule = "inputs for 24 public decoder entry points (CTAP2 CBOR of six message types, authenticator data, WebAuthn JSON of five types, base64 helpers, three U2F parsers, CTAPHID packet sequences, COSE key converter, fingerprint and asset-link validators, suffix-list API, RP-ID verifier, Bytes/Aaguid CBOR): arbitrary bytes/strings, and structured mutations of valid encodings produced by the C12/C13/C14/C16/C17 generators (truncation, extension, bit flips, CBOR length heads rewritten to 2^16 / 2^32-1 / 2^32 / 2^40 / 2^63 / 2^64-1 / 2^28, inserted huge heads, nesting up to 10^5, length fields rewritten, splices), occasionally fed to another decoder of the same wire format; each case runs in an isolated worker under catch_unwind with allocation and CPU accounting. Plus 16 growth families (thousands of HID packets on distinct / one channel, CBOR and JSON lists of n entries, n unknown members, n labels, ...) measured at n and 4n. Non-trivial = a mutation of a valid encoding, or an input the decoder accepted; distinct by (decoder, input).".into();
     ctx.assumptions = vec![
         "'out of proportion' is decided numerically: largest single allocation request and peak live bytes <= 8 MiB + 256 x input length (serde itself pre-allocates up to ~1.6 MB for a declared collection length, a bounded constant); thread CPU time <= 250 ms + 20 us x input length (minimum of 3 runs); a 10 s CPU watchdog in the worker".into(),
         "a returned value and a returned error are both fine".into(),
+        "growth: CPU time at 4n must stay within 8x the time at n plus 30 ms (only judged when the larger run takes at least 100 ms; the smaller input's time is the maximum, the larger one's the minimum of repeated measurements)".into(),
         "a wall-clock stall without CPU consumption is reported as inconclusive (exit 2), never as a violation".into(),
     ];
     let total = ctx.tier.pick(300_000u64, 6_000_000u64);
@@ -672,6 +825,27 @@ pub fn run(ctx: &mut Ctx) {
         ctx.violation(&format!("decoders-{}", seen.len()), json!(final_case), &format!("{}: {msg}", DECODERS[final_case.decoder % DECODERS.len()]));
     }
     ctx.note("failures_not_reproduced_in_isolation", json!(unconfirmed));
+    // ---- growth: the same shape at size n and 4n (each in a process of its own); linear work takes about 4x
+    if ctx.first_shard() {
+        let mut table = vec![];
+        for f in 0..SCALE_FAMILIES.len() {
+            let n = scale_base(f, ctx.tier);
+            match check_scaling(f, n) {
+                Ok((t1, t4, len1, len4)) => {
+                    ctx.eval();
+                    ctx.eval();
+                    ctx.class("scaling pair (n, 4n)");
+                    ctx.nontrivial(&("scale", f, n));
+                    table.push(json!({"family": SCALE_FAMILIES[f], "n": n, "bytes_n": len1, "bytes_4n": len4, "cpu_us_n": t1, "cpu_us_4n": t4}));
+                }
+                Err(e) => {
+                    hostile::exit_if_stalled("C15", &e);
+                    ctx.violation(&format!("scaling-{f}"), json!({"scale_family": f, "n": n}), &e);
+                }
+            }
+        }
+        ctx.note("scaling", json!(table));
+    }
     if let Some(why) = out.inconclusive {
         if ctx.violations.is_empty() {
             eprintln!("C15 inconclusive: {why}");
@@ -680,7 +854,58 @@ pub fn run(ctx: &mut Ctx) {
     }
 }
 
+fn scale_base(f: usize, tier: crate::core::Tier) -> usize {
+    let n = match f % SCALE_FAMILIES.len() {
+        14 => 16_000,
+        10 | 15 => 200_000,
+        _ => 8_000,
+    };
+    if f % SCALE_FAMILIES.len() == 14 {
+        n
+    } else {
+        tier.pick(n, n * 2)
+    }
+}
+
+/// CPU time of family f at n and at 4n (minimum of up to three measurements each, every one in its own process)
+fn check_scaling(f: usize, n: usize) -> Result<(u64, u64, u64, u64), String> {
+    let one = |n: usize| -> Result<(u64, u64), String> {
+        let case = Case { decoder: 0, input_hex: String::new(), origin: format!("scale:{f}:{n}") };
+        let r = hostile::run_one("c15", &serde_json::to_string(&case).unwrap()).map_err(|how| if how.starts_with(hostile::STALL) { how } else { format!("{} at n = {n}: the process died ({how})", SCALE_FAMILIES[f]) })?;
+        if !r.ok {
+            return Err(format!("{} at n = {n}: {}", SCALE_FAMILIES[f], r.msg));
+        }
+        Ok((r.cpu_us, r.max_alloc))
+    };
+    let (mut t1, _) = one(n)?;
+    let (mut t4, _) = one(4 * n)?;
+    let grows = |t1: u64, t4: u64| t4 >= 100_000 && t4 > 8 * t1 + 30_000;
+    let mut tries = 0;
+    while grows(t1, t4) && tries < 2 {
+        // the smaller input is re-measured towards its maximum, the larger one towards its minimum: noise cannot create a verdict
+        t1 = t1.max(one(n)?.0);
+        t4 = t4.min(one(4 * n)?.0);
+        tries += 1;
+    }
+    if grows(t1, t4) {
+        return Err(format!("{}: processing time grows faster than the input: n = {n} takes {} ms of CPU, 4n takes {} ms (linear growth would be about 4x, the limit is 8x + 30 ms)", SCALE_FAMILIES[f], t1 / 1000, t4 / 1000));
+    }
+    let (d1, i1) = scale_input(f, n);
+    let _ = d1;
+    let l4 = scale_input(f, 4 * n).1.len() as u64;
+    Ok((t1, t4, i1.len() as u64, l4))
+}
+
 pub fn replay(_ctx: &mut Ctx, _stage: &str, case: &Value) -> Result<(), String> {
+    if let (Some(f), Some(n)) = (case.get("scale_family").and_then(|v| v.as_u64()), case.get("n").and_then(|v| v.as_u64())) {
+        return match check_scaling(f as usize, n as usize) {
+            Ok(_) => Ok(()),
+            Err(e) => {
+                hostile::exit_if_stalled("C15", &e);
+                Err(e)
+            }
+        };
+    }
     let c: Case = serde_json::from_value(case.clone()).map_err(|e| format!("bad case: {e}"))?;
     match fails(&c) {
         None => Ok(()),
